@@ -172,7 +172,7 @@ def check(pid, tier, seed):
                 ops = [step_line(g, ei, k)[2:] for k, ei in enumerate(path)]
                 k = int(prob.split()[1]) if prob.startswith("step ") and prob.split()[1].isdigit() else sum(1 for r in recs if r.get("e") == "Obs")
                 verdict.violation("router[%s,%s] %s" % (rt, sig, " ".join(prob.split()[2:7])), prob,
-                                  {"component": "router", "router": rt, "sig": sig, "history": ops[:k + 1]})
+                                  {"component": "router", "xid": xid, "router": rt, "sig": sig, "history": ops[:k + 1]})
             if len(samples) < 2 and len(path) > 5:
                 samples.append({"source": "tlc-path " + cfg, "router": rt, "sig": sig, "history": [step_line(g, ei, k)[2:] for k, ei in enumerate(path)][:20]})
         log("[%s] graph %s: %d states / %d edges, %d executions so far" % (pid, cfg, len(g.states), len(g.edges), nexec))
@@ -185,3 +185,13 @@ def check(pid, tier, seed):
     rc = verdict.finish()
     common.write_evidence(pid, tier, seed, "model_checking", cov, ASSUMPTIONS, time.time() - t0, len(verdict.violations))
     return rc
+
+
+def all_harnesses():
+    exe = harness()
+    return {exe.name: exe}
+
+
+def replay(pid, path):
+    import sys
+    return common.replay(pid, path, sys.modules[__name__])
